@@ -269,6 +269,57 @@ def deep_refinement(rng: random.Random, steps=80):
     return mol
 
 
+def mixed_hydrogens(rng: random.Random):
+    """Heavy-atom skeleton (often symmetric) whose atoms carry terminal hydrogens of MIXED isotopes/radical states (CH2D, CHDT, NHD, ...),
+    with twin atoms carrying the same multiset: sequences of equal neighbours are where order dependence hides."""
+    kind = rng.choice(["pair", "ring", "chain", "star", "two-waters"])
+    if kind == "two-waters":
+        heavy, hb = [Atom("O"), Atom("O")], []
+        patterns = [[rng.choice([0, 2, 3]), rng.choice([0, 2, 3])] for _ in range(2)]
+    else:
+        n = {"pair": 2, "ring": rng.randint(3, 6), "chain": rng.randint(3, 5), "star": rng.randint(3, 5)}[kind]
+        sym = rng.choice(["C", "C", "N", "Si"])
+        heavy = [Atom(sym) for _ in range(n)]
+        hb = ([(0, 1)] if kind == "pair" else [(i, (i + 1) % n) for i in range(n)] if kind == "ring" else [(i, i + 1) for i in range(n - 1)] if kind == "chain"
+              else [(0, i) for i in range(1, n)])
+        base = [rng.choice([0, 0, 2, 3]) for _ in range(rng.randint(2, 3))]
+        patterns = []
+        for k in range(n):
+            pat = list(base) if rng.random() < 0.75 else [rng.choice([0, 2, 3]) for _ in range(rng.randint(1, 3))]
+            rng.shuffle(pat)
+            patterns.append(pat)
+    atoms = list(heavy)
+    bonds = [(a, b, 1) for a, b in hb]
+    for k, pat in enumerate(patterns):
+        for mass in pat:
+            h = Atom("H", mass=mass)
+            if rng.random() < 0.05:
+                h.rad = 2
+            atoms.append(h)
+            bonds.append((k, len(atoms) - 1, 1))
+    # scramble the listing so that equal neighbours appear in different relative orders on twin atoms
+    mol = Mol(atoms, bonds, f"hiso-{kind}{len(atoms)}", "M10")
+    mol, _ = relabel(mol, rng)
+    mol.cls = "M10"
+    return _unique_coords(mol, rng)
+
+
+def hub(rng: random.Random):
+    """Metallocene-like: one centre bonded to 10-16 ring atoms with one bond type (star-atom ENDPTS lists with >= 10 entries)."""
+    k = rng.randint(10, 16)
+    atoms = [Atom(rng.choice(["Fe", "Cr", "U", "Zr"]))] + [Atom("C") for _ in range(k)]
+    t = rng.choice([1, 8, 9])
+    bonds = [(0, i, t) for i in range(1, k + 1)]
+    half = k // 2
+    bonds += [(1 + i, 1 + (i + 1) % half, 4) for i in range(half)] + [(1 + half + i, 1 + half + (i + 1) % (k - half), 4) for i in range(k - half)]
+    bonds = sorted({(min(a, b), max(a, b), t) for a, b, t in bonds if a != b})
+    seen, out = set(), []
+    for a, b, t in bonds:
+        if (a, b) not in seen:
+            seen.add((a, b)); out.append((a, b, t))
+    return _unique_coords(Mol(atoms, out, f"hub{k}", "M11"), rng)
+
+
 # ---------------------------------------------------------------- M4 multi-component
 
 def multi_component(rng: random.Random):
